@@ -15,6 +15,7 @@ Definition render_pi_body (ps : list ppiece) : str := flat_map render_ppiece ps.
 
 Inductive item :=
 | IText (s : str)                                                     (* text *)
+| ILt (s : str)                                                       (* `<` + text that starts no tag: `<!DOCTYPE html>`, `a < b` *)
 | IComment (body : str)                                               (* <!--body--> *)
 | ICData (body : str)                                                 (* <![CDATA[body]]> *)
 | IPI (ps : list ppiece)                                              (* <?body?> *)
@@ -30,6 +31,7 @@ Definition close_tag (n : str) : str := c_lt :: c_slash :: n ++ [c_gt].
 Fixpoint render_item (i : item) : str :=
   match i with
   | IText s => s
+  | ILt s => c_lt :: s
   | IComment b => comment_open ++ b ++ comment_close
   | ICData b => cdata_open ++ b ++ cdata_close
   | IPI ps => pi_start ++ render_pi_body ps ++ pi_end
@@ -112,11 +114,24 @@ Fixpoint pi_ok (ps : list ppiece) : bool :=
   | p :: r => ppiece_ok p && negb (starts_with pi_end (render_pi_body ps ++ pi_end)) && pi_ok r
   end.
 
+(* the text after a `<` that starts no tag, comment, CDATA section or PI: free of `<`, and it begins with
+   a character that is no name start, `/`, `?` or `!` -- or with `!` followed by neither `-` nor `[` *)
+Definition lt_text_ok (s : str) : bool :=
+  forallb (fun c => negb (c =? c_lt)%N) s &&
+  match s with
+  | [] => false
+  | c1 :: r =>
+      if (c1 =? c_excl)%N
+      then match r with c2 :: _ => negb (c2 =? c_dash)%N && negb (c2 =? c_lbrack)%N | [] => false end
+      else negb (name_start_char c1) && negb (c1 =? c_slash)%N && negb (c1 =? c_quest)%N
+  end.
+
 Section Ok.
   Variable special : list (str * option (list str)).
   Fixpoint item_ok (i : item) : bool :=
     match i with
     | IText s => forallb (fun c => negb (c =? c_lt)%N) s
+    | ILt s => lt_text_ok s
     | IComment b => ends_firstb comment_close b
     | ICData b => ends_firstb cdata_close b
     | IPI ps => pi_ok ps
@@ -132,6 +147,7 @@ Section ItemInd.
   Variable P : item -> Prop.
   Variable Q : list item -> Prop.
   Hypothesis HT : forall s, P (IText s).
+  Hypothesis HLt : forall s, P (ILt s).
   Hypothesis HCo : forall b, P (IComment b).
   Hypothesis HCd : forall b, P (ICData b).
   Hypothesis HPi : forall ps, P (IPI ps).
@@ -144,6 +160,7 @@ Section ItemInd.
   Fixpoint item_ind2 (i : item) : P i :=
     match i with
     | IText s => HT s
+    | ILt s => HLt s
     | IComment b => HCo b
     | ICData b => HCd b
     | IPI ps => HPi ps
@@ -502,6 +519,32 @@ Proof.
     rewrite IH by exact H. cbn [length]. f_equal. f_equal. lia.
 Qed.
 
+(* a `<` that starts nothing is stepped over *)
+Lemma step_stray_lt special (s T : str) :
+  lt_text_ok s = true -> step special (c_lt :: s ++ T) = Step 1 [].
+Proof.
+  unfold lt_text_ok. intros H. apply andb_true_iff in H. destruct H as [_ H].
+  destruct s as [|c1 r]; [discriminate|]. cbn [app].
+  destruct (c1 =? c_excl)%N eqn:E1.
+  - apply N.eqb_eq in E1. subst c1. destruct r as [|c2 r]; [discriminate|].
+    apply andb_true_iff in H. destruct H as [H1 H2]. apply negb_true_iff in H1. apply negb_true_iff in H2.
+    cbn [app]. unfold step, cdata, comment, processing_instruction, consume_section.
+    assert (Ea : starts_with cdata_open (c_lt :: c_excl :: c2 :: r ++ T) = false).
+    { change cdata_open with (c_lt :: c_excl :: c_lbrack :: tl (tl (tl cdata_open))). cbn [starts_with].
+      rewrite !N.eqb_refl. rewrite (N.eqb_sym c_lbrack c2), H2. reflexivity. }
+    assert (Eb : starts_with comment_open (c_lt :: c_excl :: c2 :: r ++ T) = false).
+    { change comment_open with (c_lt :: c_excl :: c_dash :: tl (tl (tl comment_open))). cbn [starts_with].
+      rewrite !N.eqb_refl. rewrite (N.eqb_sym c_dash c2), H1. reflexivity. }
+    rewrite Ea, Eb. reflexivity.
+  - apply andb_true_iff in H. destruct H as [H H3]. apply andb_true_iff in H. destruct H as [H1 H2].
+    apply negb_true_iff in H1. apply negb_true_iff in H2. apply negb_true_iff in H3.
+    rewrite step_is_tag_step by assumption.
+    unfold tag_step. cbv zeta. cbn [skipn peek_is]. rewrite H2. cbn [skipn ident]. rewrite H1. reflexivity.
+Qed.
+
+Lemma lt_text_free s : lt_text_ok s = true -> forallb (fun c => negb (c =? c_lt)%N) s = true.
+Proof. unfold lt_text_ok. intros H. apply andb_true_iff in H. tauto. Qed.
+
 Lemma abs_ev_0 pos name ty en :
   abs_ev pos (mkRev name ty 0 en) = mkEv name ty pos (pos + N.of_nat en)%N.
 Proof. unfold abs_ev. cbn [r_name r_type r_start r_end]. rewrite N.add_0_r. reflexivity. Qed.
@@ -534,6 +577,11 @@ Section Scan.
     assert (HT : forall s, scan_item_stmt (IText s)).
     { intros s T pos H. cbn [item_ok render_item nodes_item] in *.
       rewrite scan_go_text by exact H. reflexivity. }
+    assert (HLt : forall s, scan_item_stmt (ILt s)).
+    { intros s T pos H. cbn [item_ok render_item nodes_item] in *.
+      pose proof (scan_go_step special [c_lt] (s ++ T) pos [] ltac:(discriminate) (step_stray_lt special s T H)) as E.
+      cbn [app length map] in E. cbn [app]. rewrite E. rewrite scan_go_text by (apply lt_text_free; exact H).
+      cbn [length events_forest flat_map app]. f_equal. f_equal. lia. }
     assert (HCo : forall b, scan_item_stmt (IComment b)).
     { intros b T pos H. cbn [item_ok render_item nodes_item] in *.
       rewrite (scan_go_step special _ T pos []); [reflexivity|discriminate|apply step_comment; exact H]. }
@@ -596,8 +644,8 @@ Section Scan.
       rewrite app_nil_r. rewrite <- !app_assoc. cbn [app]. f_equal. f_equal. f_equal. f_equal. f_equal.
       rewrite !app_length. lia. }
     split.
-    - exact (item_ind2 _ _ HT HCo HCd HPi HPa HSe HVo HRa HQ0 HQ1).
-    - exact (items_ind2 _ _ HT HCo HCd HPi HPa HSe HVo HRa HQ0 HQ1).
+    - exact (item_ind2 _ _ HT HLt HCo HCd HPi HPa HSe HVo HRa HQ0 HQ1).
+    - exact (items_ind2 _ _ HT HLt HCo HCd HPi HPa HSe HVo HRa HQ0 HQ1).
   Qed.
 
   (* the scanner over the rendered document reports exactly the events of the record *)
